@@ -25,6 +25,7 @@ import VrlModel.Driver.C03
 import VrlModel.Driver.C08d
 import VrlModel.Driver.C03Decl
 import VrlModel.Driver.Search
+import VrlModel.Driver.TypeInfo
 
 /-- Line protocol driver: one case per line `op <tab> arg…`, one reply line per case. -/
 def handlers : List (String → List String → Option String) := [
@@ -54,7 +55,8 @@ def handlers : List (String → List String → Option String) := [
   Driver.C03.handle,
   Driver.C08d.handle,
   Driver.C03Decl.handle,
-  Driver.SearchOps.handle
+  Driver.SearchOps.handle,
+  Driver.TypeInfo.handle
 ]
 
 def dispatch (op : String) (args : List String) : String :=
